@@ -6,10 +6,16 @@ set -u
 export GOFLAGS=-mod=mod GOPROXY=off GOSUMDB=off GOTOOLCHAIN=local CGO_ENABLED=1
 HERE="$(cd "$(dirname "$0")" && pwd)"
 SIM="$HERE/sim"
-mkdir -p "$HERE/bin"
+# PANASIM_REPO / PANASIM_OUT: build against a scratch worktree of the repository (used only when testing
+# the machinery against seeded changes); the registered checks always build against /repo.
+REPO="${PANASIM_REPO:-/repo}"
+OUTDIR="${PANASIM_OUT:-$HERE/bin}"
+MODDIR="$SIM"
+if [ "$REPO" != "/repo" ]; then MODDIR="$OUTDIR/mod"; mkdir -p "$MODDIR"; fi
+mkdir -p "$OUTDIR"
 gen_mod() {
   # go.mod = /repo/go.mod with module line replaced, + replace of panacea-core to /repo, + extra requires
-  local tmp="$SIM/go.mod.new"
+  local tmp="$MODDIR/go.mod.new"
   {
     echo "module panasim"
     echo
@@ -18,21 +24,21 @@ gen_mod() {
     echo "require github.com/medibloc/panacea-core/v2 v2.0.0"
     echo "require github.com/anishathalye/porcupine v1.3.0"
     echo
-    echo "replace github.com/medibloc/panacea-core/v2 => /repo"
+    echo "replace github.com/medibloc/panacea-core/v2 => $REPO"
     echo
     # copy require/replace blocks of /repo/go.mod verbatim (skip module and go/toolchain lines)
-    sed -e '/^module /d' -e '/^go [0-9]/d' -e '/^toolchain /d' /repo/go.mod
+    sed -e '/^module /d' -e '/^go [0-9]/d' -e '/^toolchain /d' "$REPO/go.mod"
   } > "$tmp"
-  if ! cmp -s "$tmp" "$SIM/go.mod"; then mv "$tmp" "$SIM/go.mod"; else rm -f "$tmp"; fi
+  if ! cmp -s "$tmp" "$MODDIR/go.mod"; then mv "$tmp" "$MODDIR/go.mod"; else rm -f "$tmp"; fi
   # go.sum = /repo/go.sum + extra lines kept in go.sum.extra
-  cat /repo/go.sum "$SIM/go.sum.extra" 2>/dev/null | sort -u > "$SIM/go.sum.new"
-  if ! cmp -s "$SIM/go.sum.new" "$SIM/go.sum"; then mv "$SIM/go.sum.new" "$SIM/go.sum"; else rm -f "$SIM/go.sum.new"; fi
+  cat "$REPO/go.sum" "$SIM/go.sum.extra" 2>/dev/null | sort -u > "$MODDIR/go.sum.new"
+  if ! cmp -s "$MODDIR/go.sum.new" "$MODDIR/go.sum"; then mv "$MODDIR/go.sum.new" "$MODDIR/go.sum"; else rm -f "$MODDIR/go.sum.new"; fi
 }
 gen_mod
 cd "$SIM" || exit 2
 if [ "${1:-}" = race ]; then
-  go build -tags verif -race -o "$HERE/bin/panasim-race" . >"$HERE/bin/build-race.log" 2>&1 || { cat "$HERE/bin/build-race.log"; echo "BUILD-FAILED (race)"; exit 2; }
+  go build -modfile="$MODDIR/go.mod" -tags verif -race -o "$OUTDIR/panasim-race" . >"$OUTDIR/build-race.log" 2>&1 || { cat "$OUTDIR/build-race.log"; echo "BUILD-FAILED (race)"; exit 2; }
 else
-  go build -tags verif -o "$HERE/bin/panasim" . >"$HERE/bin/build.log" 2>&1 || { cat "$HERE/bin/build.log"; echo "BUILD-FAILED"; exit 2; }
+  go build -modfile="$MODDIR/go.mod" -tags verif -o "$OUTDIR/panasim" . >"$OUTDIR/build.log" 2>&1 || { cat "$OUTDIR/build.log"; echo "BUILD-FAILED"; exit 2; }
 fi
 exit 0
